@@ -95,8 +95,9 @@ enum { LV_ROUNDS = 40 };
 
 static void liveness_on_gvt(double g)
 {
-	int cond = RT.cfg.termination_time > 0 && g >= RT.cfg.termination_time;
-	if(g > lv_tau_all) {
+	/* g == SIMTIME_MAX: nothing is pending anywhere and "GVT < termination time" is false: every thread votes, in any model */
+	int cond = (RT.cfg.termination_time > 0 && g >= RT.cfg.termination_time) || g >= SIMTIME_MAX;
+	if(gm_spec.endless && g > lv_tau_all) {
 		if(lv_t_hi < 0)
 			lv_t_hi = lv_max_proc_t;
 		cond |= g > lv_t_hi;
@@ -111,10 +112,11 @@ static void liveness_on_gvt(double g)
 		return;
 	RT.res->cls[K_GVT_ROUNDS] = lv_rounds;
 	rt_fail("C08",
-	    "RootsimRun did not return: worker 0 has been told %u GVT values (latest %a) above the time %a at which every LP's predicate "
-	    "holds in the sequential execution and above every timestamp executed before (%a)%s, over %llu scheduler steps - all votes "
-	    "are in, yet the run goes on",
-	    lv_rounds, g, lv_tau_all, lv_t_hi, RT.cfg.termination_time > 0 ? " or at/above the termination time" : "",
+	    "RootsimRun did not return: worker 0 has been told %u GVT values (latest %a) that make every thread vote for termination "
+	    "(%s%s%s), over %llu scheduler steps - all votes are in, yet the run goes on",
+	    lv_rounds, g, g >= SIMTIME_MAX ? "GVT = infinity: nothing is pending anywhere" : "",
+	    g < SIMTIME_MAX && gm_spec.endless ? "above the time at which every LP's predicate holds in the sequential execution and above every timestamp executed before" : "",
+	    g < SIMTIME_MAX && RT.cfg.termination_time > 0 && g >= RT.cfg.termination_time ? " / at or above the termination time" : "",
 	    (unsigned long long)(rsv_steps() - lv_step0));
 	if(RT.res->verdict == RSV_FAIL)
 		rt_abort_case();
@@ -256,7 +258,7 @@ void rt_oracles_begin(void)
 {
 	memset(DS, 0, sizeof DS);
 	cb_max_gvt = 0;
-	lv_on = gm_spec.endless && RT.cfg.mode == RSV_MODE_DET && !RT.cfg.serial;
+	lv_on = RT.cfg.mode == RSV_MODE_DET && !RT.cfg.serial;
 	lv_tau_all = -1;
 	for(unsigned i = 0; i < gm_spec.n_lps; i++)
 		if(RT.ref.tau[i] > lv_tau_all)
